@@ -87,20 +87,34 @@ Check(t) ==
        ELSE th' = [th EXCEPT ![t].pc = "pre"]
     /\ UNCHANGED <<file, kr, lock, hist>>
 
-\* precreate_secure_database_file: parent directory 0700 if it has to be created, O_CREAT|O_EXCL, chmod 0600
+\* precreate_secure_database_file: parent directory 0700 if it has to be created, O_CREAT|O_EXCL, chmod 0600.
+\* As built (Dev flag PrecreateNotAtomic) the file is created with the process umask (OpenOptions::create_new, no mode)
+\* and chmod'ed in a second system call (permissions.rs:140-146): between the two it is group/world accessible.
+AfterPre(ctor, created) ==
+    CASE ctor = "new" -> IF created THEN "g1" ELSE "e1"
+      [] ctor = "with_key" -> "o1"
+      [] OTHER -> "o2"
+
 Precreate(t) ==
     /\ th[t].pc = "pre"
     /\ LET p == th[t].p
            f == file[p]
            created == ~Exists(f)
-           nxt == CASE th[t].ctor = "new" -> IF created THEN "g1" ELSE "e1"
-                    [] th[t].ctor = "with_key" -> "o1"
-                    [] OTHER -> "o2"
+           twostep == created /\ "PrecreateNotAtomic" \in Dev
        IN /\ file' = IF created
-                     THEN [file EXCEPT ![p] = [f EXCEPT !.st = "empty", !.mode = "secure",
+                     THEN [file EXCEPT ![p] = [f EXCEPT !.st = "empty", !.mode = IF twostep THEN "loose" ELSE "secure",
                                                         !.dmode = IF f.dmode = "none" THEN "secure" ELSE f.dmode]]
                      ELSE file
-          /\ th' = [th EXCEPT ![t].pc = nxt, ![t].out = IF created THEN "created" ELSE "existed"]
+          /\ th' = [th EXCEPT ![t].pc = IF twostep THEN "prm" ELSE AfterPre(th[t].ctor, created),
+                               ![t].out = IF created THEN "created" ELSE "existed"]
+          /\ hist' = IF created THEN [hist EXCEPT !.created = @ \cup {p}] ELSE hist
+    /\ UNCHANGED <<kr, lock>>
+
+\* set_secure_file_permissions right after the creation
+PrecreateChmod(t) ==
+    /\ th[t].pc = "prm"
+    /\ file' = [file EXCEPT ![th[t].p].mode = "secure"]
+    /\ th' = [th EXCEPT ![t].pc = AfterPre(th[t].ctor, TRUE)]
     /\ UNCHANGED <<kr, lock, hist>>
 
 \* keyring::get_db_key — the three places it is called from; g = the value read
@@ -214,7 +228,7 @@ Close(t) ==
     /\ hist' = [hist EXCEPT !.handles = {x \in @ : x.t # t}]
     /\ UNCHANGED <<file, kr, lock>>
 
-Silent(t) == Check(t) \/ Precreate(t) \/ LockPoisoned(t) \/ LockAcquire(t) \/ HeaderCheck(t) \/ Validate(t) \/ Migrate(t) \/ Busy(t)
+Silent(t) == Check(t) \/ Precreate(t) \/ PrecreateChmod(t) \/ LockPoisoned(t) \/ LockAcquire(t) \/ HeaderCheck(t) \/ Validate(t) \/ Migrate(t) \/ Busy(t)
 
 -----------------------------------------------------------------------------
 (* Properties *)
@@ -241,6 +255,13 @@ PermsOwnerOnly ==
     \A t \in Threads : (th[t].pc = "ret" /\ th[t].res = "Ok") =>
         /\ file[th[t].p].mode = "secure"
         /\ file[th[t].p].dmode \in {"secure", "pre"}
+
+\* a file the code created is owner-only at EVERY instant, not only when the constructor returns
+\* finding C13/PrecreateNotAtomic: the instant between O_EXCL creation and the chmod of the same call
+ExcusedLoose(p) == "PrecreateNotAtomic" \in Dev /\ \E t \in Threads : th[t].pc = "prm" /\ th[t].p = p
+Once(tag) == IF TLCGet(2) = 0 THEN PrintT(<<"KNOWN-FINDING", "C13", tag>>) /\ TLCSet(2, 1) ELSE TRUE
+PermsNeverLoosePlain == \A p \in Paths : (p \in hist.created) => file[p].mode # "loose"
+PermsNeverLoose == \A p \in Paths : (p \in hist.created /\ file[p].mode = "loose") => (ExcusedLoose(p) /\ Once("PrecreateNotAtomic"))
 
 \* a call that ran alone answered what the open matrix says (in particular: reopening with the right key works)
 MatrixAgrees == \A t \in Threads : (th[t].pc = "ret" /\ th[t].exp # "") => th[t].res = th[t].exp
